@@ -38,13 +38,13 @@ Proof. intros args H. apply Forall_forall. intros x Hx. rewrite Forall_forall in
 
 (* leaves: a command or test whose arguments are plain values *)
 Lemma leaf_print : forall d am em am' em' cargs f ind,
-  slots_args d am em (d_args d) cargs -> slots_args d am' em' (d_args d) cargs ->
+  slots_args [32%N] d am em (d_args d) cargs -> slots_args [32%N] d am' em' (d_args d) cargs ->
   tosieve f (Node d am' em' [] []) ind = tosieve f (Node d am em [] []) ind.
 Proof.
   intros d am em am' em' cargs f ind H H'. destruct f as [|f]; [reflexivity|].
   rewrite !tosieve_S. cbn [node_def node_children].
-  destruct (args_layout d am em [] [] (fun t => tosieve f t 0) (fun t => tosieve f t ind) _ _ H) as (E & _).
-  destruct (args_layout d am' em' [] [] (fun t => tosieve f t 0) (fun t => tosieve f t ind) _ _ H') as (E' & _).
+  destruct (args_layout [32%N] d am em [] [] (fun t => tosieve f t 0) (fun t => tosieve f t ind) _ _ H) as (E & _).
+  destruct (args_layout [32%N] d am' em' [] [] (fun t => tosieve f t 0) (fun t => tosieve f t ind) _ _ H') as (E' & _).
   rewrite E, E'. reflexivity.
 Qed.
 
@@ -62,7 +62,7 @@ Section Lift.
 
   Definition Qt (L : list bytes) (t : gtest) (n : node) : Prop :=
     test_pr t ->
-    exists t' n', wf_test T L t' n' /\ canon_test t' n' /\ nsim n' n /\ dt t' = dt t /\ same_print n' n.
+    exists t' n', wf_test T L t' n' /\ canon_test std_sep t' n' /\ nsim n' n /\ dt t' = dt t /\ same_print n' n.
 
   Theorem canon_of_test : forall L t n, wf_test T L t n -> Qt L t n.
   Proof.
@@ -78,7 +78,7 @@ Section Lift.
       { unfold def_ok in Hdok. apply andb_true_iff in Hdok as [_ X]. exact X. }
       exists (GSimple (d_name d) cargs), (Node d am' em' [] []).
       split; [apply (wf_simple T L (d_name d) d cargs am' em' Hg' Hty Hnts Hef Hwf Hfa (argP_ok _ E) A)|].
-      split; [apply (ct_simple d cargs am' em' Hidn Hty D')|].
+      split; [apply (ct_simple std_sep d cargs am' em' Hidn Hty D')|].
       split; [apply sim_leaf; assumption|]. split; [reflexivity|].
       intros f ind. apply (leaf_print d am em am' em' cargs f ind D D').
     - (* a test that takes one test *)
@@ -89,7 +89,7 @@ Section Lift.
       destruct (IH t1 n1 Hw1 Hp1) as (t1' & n1' & W1 & C1 & S1 & D1 & P1).
       exists (GNot (d_name d) t1'), (Node d [(a_name a, VTest n1')] [] [] []).
       split; [apply (wf_not T L (d_name d) d a t1' n1' Hg' Hty Ha Ht1 W1)|].
-      split; [apply (ct_not d a t1' n1' Hidn Hty Ha (is_t1_not_tag a Ht1) C1)|].
+      split; [apply (ct_not std_sep d a t1' n1' Hidn Hty Ha (is_t1_not_tag a Ht1) C1)|].
       split; [apply sim_not; exact S1|]. split; [cbn [dt]; rewrite D1; reflexivity|].
       intros f ind. destruct f as [|f]; [reflexivity|]. rewrite !tosieve_S. cbn [node_def node_children].
       rewrite Ha. cbn [p_args node_args]. rewrite !assoc_get_one, (is_t1_not_tag a Ht1). cbn [p_value]. rewrite (P1 f ind). reflexivity.
@@ -98,7 +98,7 @@ Section Lift.
       destruct (gci_canonical_name T L name d HTB Hg) as (Hg' & Hdok).
       assert (Hidn : ident_ok (d_name d) = true).
       { unfold def_ok in Hdok. apply andb_true_iff in Hdok as [_ X]. exact X. }
-      assert (G : exists ts' ns', Forall2 (wf_test T L) ts' ns' /\ Forall2 canon_test ts' ns' /\ Forall2 nsim ns' ns /\
+      assert (G : exists ts' ns', Forall2 (wf_test T L) ts' ns' /\ Forall2 (canon_test std_sep) ts' ns' /\ Forall2 nsim ns' ns /\
                     Forall2 (fun t' t => dt t' = dt t) ts' ts /\ Forall2 same_print ns' ns).
       { clear Hne Hne' Hp. revert Hpl. induction Hws as [|t0 n0 ts0 ns0 H0 Hr IHr]; intro Hpl.
         - exists [], []. repeat split; constructor.
@@ -111,7 +111,7 @@ Section Lift.
       { intro X. subst ts'. inversion A4; subst. congruence. }
       exists (GList (d_name d) ts'), (Node d [(a_name a, VTests ns')] [] [] []).
       split; [apply (wf_list T L (d_name d) d a ts' ns' Hg' Hty Ha Htl Hmf Hne2 A1)|].
-      split; [apply (ct_list d a ts' ns' Hidn Hty Ha (is_tl_type a Htl) Hne2 A2)|].
+      split; [apply (ct_list std_sep d a ts' ns' Hidn Hty Ha (is_tl_type a Htl) Hne2 A2)|].
       split; [apply sim_list; exact A3|].
       split.
       { cbn [dt]. f_equal. clear -A4. induction A4 as [|x y xs ys Hxy Hr IHr]; [reflexivity|]. cbn [fold_right]. rewrite Hxy, IHr. reflexivity. }
@@ -126,11 +126,11 @@ Section Lift.
 
   Definition Qc (L : list bytes) (prev : option bytes) (c : gcmd) (n : node) (L' : list bytes) : Prop :=
     cmd_pr c ->
-    exists c' n', wf_cmd T L prev c' n' L' /\ canon_cmd c' n' /\ nsim n' n /\ dc c' = dc c /\ same_print n' n.
+    exists c' n', wf_cmd T L prev c' n' L' /\ canon_cmd std_sep c' n' /\ nsim n' n /\ dc c' = dc c /\ same_print n' n.
 
   Definition Qcs (L : list bytes) (prev : option bytes) (cs : list gcmd) (ns : list node) (L' : list bytes) : Prop :=
     Forall cmd_pr cs ->
-    exists cs' ns', wf_cmds T L prev cs' ns' L' /\ Forall2 canon_cmd cs' ns' /\ Forall2 nsim ns' ns /\
+    exists cs' ns', wf_cmds T L prev cs' ns' L' /\ Forall2 (canon_cmd std_sep) cs' ns' /\ Forall2 nsim ns' ns /\
                     Forall2 (fun c' c => dc c' = dc c) cs' cs /\ Forall2 same_print ns' ns.
 
   Lemma cb_ok_meq : forall d am am' L L', meq am' am -> cb_ok d am L L' -> cb_ok d am' L L'.
@@ -157,7 +157,7 @@ Section Lift.
       { unfold def_ok in Hdok. apply andb_true_iff in Hdok as [_ X]. exact X. }
       exists (GAct (d_name d) cargs), (Node d am' em' [] []).
       split; [apply (wf_act T L prev (d_name d) d cargs am' em' L' Hg' Hty Hch Hwf Hfa (argP_ok _ E) A Hfol (cb_ok_meq d am am' L L' B Hcb))|].
-      split; [apply (cc_act d cargs am' em' Hidn Hty Hch D')|].
+      split; [apply (cc_act std_sep d cargs am' em' Hidn Hty Hch D')|].
       split; [apply sim_leaf; assumption|]. split; [reflexivity|].
       intros f ind. apply (leaf_print d am em am' em' cargs f ind D D').
     - (* name test { ... } *)
@@ -170,7 +170,7 @@ Section Lift.
       destruct (IHb Hpb) as (body' & ns' & W2 & C2 & S2 & D2 & P2).
       exists (GCtl (d_name d) t' body'), (Node d [(a_name a, VTest nt')] [] ns' []).
       split; [apply (wf_ctl T L prev (d_name d) d a t' nt' body' ns' L' Hg' Hty Hch Ha Ht1 Hfol W1 W2)|].
-      split; [apply (cc_ctl d a t' nt' body' ns' Hidn Hty Hch Ha (is_t1_not_tag a Ht1) C1 C2)|].
+      split; [apply (cc_ctl std_sep d a t' nt' body' ns' Hidn Hty Hch Ha (is_t1_not_tag a Ht1) C1 C2)|].
       split; [apply sim_ctl; assumption|].
       split; [cbn [dc]; rewrite D1, (fold_dc_eq _ _ D2); reflexivity|].
       intros f ind. destruct f as [|f]; [reflexivity|]. rewrite !tosieve_S. cbn [node_def node_children].
@@ -185,7 +185,7 @@ Section Lift.
       destruct (IHb Hpb) as (body' & ns' & W2 & C2 & S2 & D2 & P2).
       exists (GElse (d_name d) body'), (Node d [] [] ns' []).
       split; [apply (wf_else T L prev (d_name d) d body' ns' L' Hg' Hty Hch Ha Hfol W2)|].
-      split; [apply (cc_else d body' ns' Hidn Hty Hch Ha C2)|].
+      split; [apply (cc_else std_sep d body' ns' Hidn Hty Hch Ha C2)|].
       split; [apply sim_else; assumption|].
       split; [cbn [dc]; rewrite (fold_dc_eq _ _ D2); reflexivity|].
       intros f ind. destruct f as [|f]; [reflexivity|]. rewrite !tosieve_S. cbn [node_def node_children].
@@ -220,7 +220,7 @@ Section Lift.
     destruct (canon_of_cmds [] None cs ns L' Hwf Hp) as (cs' & ns' & W & C & S & D & P).
     exists ns'. pose proof (all_print_eq ns' ns f P) as E. rewrite <- E.
     split; [|split; [exact S|reflexivity]].
-    apply (print_parse_roundtrip T cs' ns' L' f HT W C).
+    apply (print_parse_roundtrip std_sep std_sep_space T cs' ns' L' f HT W C).
     - intro X. subst cs'. inversion D; subst. congruence.
     - rewrite (fold_dc_eq _ _ D). exact Hf.
   Qed.
